@@ -690,7 +690,7 @@ func (w *world) close() {
 
 // ---- command generation over a mirror ---------------------------------------------------
 
-var viewFlagPool = []string{`\Seen`, `\Flagged`, `\Answered`, `\Draft`, `\Deleted`, `$Forwarded`, `Forwarded`}
+var viewFlagPool = []string{`\Seen`, `\Flagged`, `\Answered`, `\Draft`, `\Deleted`, `$Forwarded`, `Forwarded`, `kw,view`}
 
 func pickViewFlags(rng *rand.Rand, allowEmpty bool) []string {
 	n := rng.Intn(3)
